@@ -10,6 +10,7 @@ From EP Require Import Checksum.ProtoTypes Checksum.ProtoSpec.
 From EP Require Checksum.Proto Checksum.ProtoProofs.
 From EP Require Import Roundtrip.Common Roundtrip.CommonProofs.
 From EP Require Roundtrip.Tcp Roundtrip.TcpProofs Roundtrip.Ipv4 Roundtrip.Ipv4Proofs.
+From EP Require CtlMsg.Spec Roundtrip.Icmp4 Roundtrip.Icmp6 Roundtrip.Icmp4Proofs Roundtrip.Icmp6Proofs.
 From EP Require ExtChain.Spec ExtChain.Model ExtChain.Proofs BitFields.Model.
 From EP Require Import Parse.WireSpec.
 From EP Require Import Builder.Model Builder.Spec Builder.Proofs Builder.ProofsCk Builder.SpecX.
@@ -147,27 +148,71 @@ Proof.
 Qed.
 
 (* ------------------------------------------------------------------ ICMP kinds as C09 message types *)
-Lemma icmp4_of_wf k : icmp_wf k = true ->
-  exists t, icmp4_of k = Some t /\ icmp4_ok t /\ icmp4_pieces k = Some (CP.icmp4_pieces t) /\
-            forall ck, icmp4_to_bytes k ck = icmp4_wire t ck.
+(* every configured Icmpv4Type / Icmpv6Type: the C08 serialisation (Roundtrip/Icmp4.v,
+   Icmp6.v) of the value is the RFC 792 / 4443 / 4861 layout (Checksum/ProtoSpec.v) of
+   its C09 counterpart, and the ranges of the Rust field types carry over *)
+Lemma icmp4_of_wf k : icmp4_cfg_wf k = true ->
+  exists t, icmp4_of k = Some t /\ icmp4_ok t /\ t = c09_icmp4 k /\
+            forall ck, Icmp4.icmp4_to_bytes {| Icmp4.icmp4_type := k; Icmp4.icmp4_checksum := ck |}
+                       = Some (icmp4_wire t ck).
 Proof.
-  destruct k as [ty code b|i s|i s]; cbn [icmp_wf]; intros W; bsplit W.
-  - match goal with H : len b = 4, H' : bytes_okb b = true |- _ =>
-      apply bytes_okb_spec in H'; destruct (Ipv4Proofs.len4_explicit b H H') as (b0 & b1 & b2 & b3 & E & ? & ? & ? & ?)
-    end. subst b. eexists. split; [reflexivity|]. split; [cbn; tauto|]. split; reflexivity.
-  - eexists. split; [reflexivity|]. split; [cbn; tauto|]. split; reflexivity.
-  - eexists. split; [reflexivity|]. split; [cbn; tauto|]. split; reflexivity.
+  intros W. exists (c09_icmp4 k). split; [reflexivity|].
+  assert (FIN : forall t, icmp4_ok (c09_icmp4 t) ->
+     (forall ck, Icmp4.icmp4_to_bytes {| Icmp4.icmp4_type := t; Icmp4.icmp4_checksum := ck |}
+                 = Some (icmp4_wire (c09_icmp4 t) ck)) ->
+     icmp4_ok (c09_icmp4 t) /\ c09_icmp4 t = c09_icmp4 t /\
+     (forall ck, Icmp4.icmp4_to_bytes {| Icmp4.icmp4_type := t; Icmp4.icmp4_checksum := ck |}
+                 = Some (icmp4_wire (c09_icmp4 t) ck))) by (intros; repeat split; assumption).
+  destruct k as [ty c b4 b5 b6 b7|id sq|d|rc g0 g1 g2 g3|id sq|tc|pp|m|m].
+  - cbn [icmp4_cfg_wf] in W. bsplit W. apply FIN; [cbn; tauto|reflexivity].
+  - cbn [icmp4_cfg_wf Icmp4.wf_icmp4_type] in W. bsplit W. apply FIN; [cbn; tauto|reflexivity].
+  - destruct d; cbn [icmp4_cfg_wf Icmp4.wf_icmp4_type] in W; bsplit W.
+    all: apply FIN; [cbn; first [lia | assumption]|intros ck; reflexivity].
+  - cbn [icmp4_cfg_wf Icmp4.wf_icmp4_type] in W. bsplit W.
+    apply FIN; [|reflexivity]. cbn [c09_icmp4 icmp4_ok]. split; [destruct rc; cbn; lia|].
+    unfold ip4_ok, ip4_bytes. repeat (apply bytes_ok_explicit_cons; [assumption|]). apply bytes_ok_nil.
+  - cbn [icmp4_cfg_wf Icmp4.wf_icmp4_type] in W. bsplit W. apply FIN; [cbn; tauto|reflexivity].
+  - apply FIN; [destruct tc; cbn; first [lia | reflexivity]|reflexivity].
+  - destruct pp; cbn [icmp4_cfg_wf Icmp4.wf_icmp4_type] in W; bsplit W;
+      (apply FIN; [cbn; first [lia | assumption | reflexivity]|reflexivity]).
+  - destruct m as [i s o r x]. cbn [icmp4_cfg_wf Icmp4.wf_icmp4_type] in W. unfold Icmp4.wf_icmp4_ts in W.
+    cbn [CtlMsg.Spec.ts_id CtlMsg.Spec.ts_seq CtlMsg.Spec.ts_originate CtlMsg.Spec.ts_receive CtlMsg.Spec.ts_transmit] in W.
+    bsplit W. apply FIN; [cbn; tauto|].
+    intros ck. cbn [c09_icmp4 icmp4_wire CtlMsg.Spec.ts_id CtlMsg.Spec.ts_seq CtlMsg.Spec.ts_originate CtlMsg.Spec.ts_receive CtlMsg.Spec.ts_transmit].
+    unfold w32. rewrite <- !u32_digits. reflexivity.
+  - destruct m as [i s o r x]. cbn [icmp4_cfg_wf Icmp4.wf_icmp4_type] in W. unfold Icmp4.wf_icmp4_ts in W.
+    cbn [CtlMsg.Spec.ts_id CtlMsg.Spec.ts_seq CtlMsg.Spec.ts_originate CtlMsg.Spec.ts_receive CtlMsg.Spec.ts_transmit] in W.
+    bsplit W. apply FIN; [cbn; tauto|].
+    intros ck. cbn [c09_icmp4 icmp4_wire CtlMsg.Spec.ts_id CtlMsg.Spec.ts_seq CtlMsg.Spec.ts_originate CtlMsg.Spec.ts_receive CtlMsg.Spec.ts_transmit].
+    unfold w32. rewrite <- !u32_digits. reflexivity.
 Qed.
-Lemma icmp6_of_wf k : icmp_wf k = true ->
-  exists t, icmp6_of k = Some t /\ icmp6_ok t /\ icmp6_pieces k = Some (CP.icmp6_pieces t) /\
-            forall ck, icmp6_to_bytes k ck = icmp6_wire t ck.
+
+Lemma icmp6_of_wf k : icmp6_cfg_wf k = true ->
+  exists t, icmp6_of k = Some t /\ icmp6_ok t /\ t = c09_icmp6 k /\
+            forall ck, Icmp6.icmp6_to_bytes {| Icmp6.icmp6_type := k; Icmp6.icmp6_checksum := ck |}
+                       = Some (icmp6_wire t ck).
 Proof.
-  destruct k as [ty code b|i s|i s]; cbn [icmp_wf]; intros W; bsplit W.
-  - match goal with H : len b = 4, H' : bytes_okb b = true |- _ =>
-      apply bytes_okb_spec in H'; destruct (Ipv4Proofs.len4_explicit b H H') as (b0 & b1 & b2 & b3 & E & ? & ? & ? & ?)
-    end. subst b. eexists. split; [reflexivity|]. split; [cbn; tauto|]. split; reflexivity.
-  - eexists. split; [reflexivity|]. split; [cbn; tauto|]. split; reflexivity.
-  - eexists. split; [reflexivity|]. split; [cbn; tauto|]. split; reflexivity.
+  intros W. exists (c09_icmp6 k). split; [reflexivity|].
+  assert (FIN : forall t, icmp6_ok (c09_icmp6 t) ->
+     (forall ck, Icmp6.icmp6_to_bytes {| Icmp6.icmp6_type := t; Icmp6.icmp6_checksum := ck |}
+                 = Some (icmp6_wire (c09_icmp6 t) ck)) ->
+     icmp6_ok (c09_icmp6 t) /\ c09_icmp6 t = c09_icmp6 t /\
+     (forall ck, Icmp6.icmp6_to_bytes {| Icmp6.icmp6_type := t; Icmp6.icmp6_checksum := ck |}
+                 = Some (icmp6_wire (c09_icmp6 t) ck))) by (intros; repeat split; assumption).
+  destruct k as [ty c b4 b5 b6 b7|dc|mtu|tc|pc ptr|id sq|id sq| |chl m o lt| |r sl o| ];
+    cbn [icmp6_cfg_wf Icmp6.wf_icmp6_type] in W; bsplit W.
+  - apply FIN; [cbn; tauto|reflexivity].
+  - apply FIN; [destruct dc; cbn; first [lia | reflexivity]|reflexivity].
+  - apply FIN; [cbn; assumption|]. intros ck. cbn [c09_icmp6 icmp6_wire]. unfold w32. rewrite <- !u32_digits. reflexivity.
+  - apply FIN; [destruct tc; cbn; first [lia | reflexivity]|reflexivity].
+  - apply FIN; [destruct pc; cbn; split; first [lia | assumption | reflexivity]|]. intros ck. cbn [c09_icmp6 icmp6_wire]. unfold w32. rewrite <- !u32_digits. reflexivity.
+  - apply FIN; [cbn; tauto|reflexivity].
+  - apply FIN; [cbn; tauto|reflexivity].
+  - apply FIN; [exact I|reflexivity].
+  - apply FIN; [cbn; tauto|]. intros ck. destruct m, o; reflexivity.
+  - apply FIN; [exact I|reflexivity].
+  - apply FIN; [exact I|]. intros ck. destruct r, sl, o; reflexivity.
+  - apply FIN; [exact I|reflexivity].
 Qed.
 
 (* ------------------------------------------------------------------ the builder calls C09's update_checksum *)
@@ -207,9 +252,10 @@ Proof.
     rewrite (tcp_header_len_of h W).
     apply tcp_wire_of; [exact W|]. eapply N.le_lt_trans; [apply checksum64_le|lia].
   - destruct (icmp4_of_wf k W) as (t & ET & OK & EP & EW). rewrite ET. cbn [option_map].
-    split; [exact OK|]. rewrite EP in E. injection E as E.
-    eexists. split; [reflexivity|]. split; [eapply N.le_lt_trans; [apply checksum64_le|lia]|].
-    rewrite <- E. apply EW.
+    split; [exact OK|]. unfold icmp4_emit in E. rewrite EW in E. injection E as E. subst t.
+    eexists. split; [reflexivity|].
+    split; [unfold CP.icmp4_calc_checksum; eapply N.le_lt_trans; [apply checksum64_le|lia]|].
+    symmetry. exact E.
   - discriminate.
 Qed.
 
@@ -246,17 +292,19 @@ Proof.
     rewrite (tcp_header_len_of h W). rewrite p4be_P4w.
     apply tcp_wire_of; [exact W|]. eapply N.le_lt_trans; [apply checksum64_le|lia].
   - destruct (icmp4_of_wf k W) as (t & ET & OK & EP & EW). rewrite ET. cbn [option_map].
-    split; [exact OK|]. rewrite EP in E. injection E as E.
-    eexists. split; [reflexivity|]. split; [eapply N.le_lt_trans; [apply checksum64_le|lia]|].
-    rewrite <- E. apply EW.
+    split; [exact OK|]. unfold icmp4_emit in E. rewrite EW in E. injection E as E. subst t.
+    eexists. split; [reflexivity|].
+    split; [unfold CP.icmp4_calc_checksum; eapply N.le_lt_trans; [apply checksum64_le|lia]|].
+    symmetry. exact E.
   - destruct (icmp6_of_wf k W) as (t & ET & OK & EP & EW). rewrite ET. cbn [option_map].
-    split; [exact OK|].
-    unfold CP.update_checksum_ipv6, CP.icmp6_calc_checksum, CP.icmp6_header_len.
-    change (CP.U32MAX - 8) with 4294967287.
-    destruct (4294967287 <? len p); [discriminate|].
-    rewrite !p16_of_len in E by assumption. rewrite EP in E. injection E as E.
-    eexists. split; [reflexivity|]. split; [eapply N.le_lt_trans; [apply checksum64_le|lia]|].
-    rewrite <- E. rewrite p4be_P4w. apply EW.
+    split; [exact OK|]. subst t.
+    rewrite !p16_of_len in E by assumption.
+    unfold CP.update_checksum_ipv6.
+    destruct (CP.icmp6_calc_checksum e (c09_icmp6 k) s d p) as [ck|a m|] eqn:EC; try discriminate.
+    rewrite EW in E. injection E as E.
+    exists ck. split; [reflexivity|]. split; [|symmetry; exact E].
+    unfold CP.icmp6_calc_checksum in EC. destruct (_ <? _); [discriminate|]. injection EC as <-.
+    eapply N.le_lt_trans; [apply checksum64_le|lia].
 Qed.
 
 (* ------------------------------------------------------------------ the field inside the RFC layouts *)
@@ -395,9 +443,15 @@ Proof.
   - injection H as <-. cbn [th_wire]. rewrite <- (tcp_header_len_of h W).
     unfold tcp_wire, tcp_header_len, w16, w32, to_be16, to_be32, len. rewrite !app_length. cbn [length]. lia.
   - destruct (icmp4_of_wf k W) as (t & ET & _ & _ & EW). rewrite ET in H. injection H as <-.
-    cbn [th_wire]. rewrite <- EW. apply icmp_to_bytes_len. exact W.
+    cbn [th_wire].
+    destruct (Icmp4Proofs.icmp4_ser_agree {| Icmp4.icmp4_type := k; Icmp4.icmp4_checksum := ck |} [])
+      as (b & EB & _ & LB).
+    rewrite (EW ck) in EB. injection EB as <-. exact LB.
   - destruct (icmp6_of_wf k W) as (t & ET & _ & _ & EW). rewrite ET in H. injection H as <-.
-    cbn [th_wire]. rewrite <- EW. apply icmp_to_bytes_len. exact W.
+    cbn [th_wire].
+    destruct (Icmp6Proofs.icmp6_ser_agree {| Icmp6.icmp6_type := k; Icmp6.icmp6_checksum := ck |} [])
+      as (b & EB & _ & LB).
+    rewrite (EW ck) in EB. injection EB as <-. exact LB.
 Qed.
 
 Lemma ck4 e s0 s1 s2 s3 d0 d1 d2 d3 t p tb :
@@ -492,7 +546,7 @@ Proof.
     { reflexivity. } { rewrite <- EU. reflexivity. }
     split; [exact V|]. rewrite WW, Z. rewrite <- EU. reflexivity.
   - (* ICMPv6 *) destruct (icmp6_of k) as [t|]; [|discriminate]. injection ETH as <-.
-    cbn [update6_spec tr_header_len ps6 ck_value] in *.
+    cbn [update6_spec tr_header_len ps6 ck_value] in *. rewrite (icmp6_hl k) in *.
     destruct (4294967287 <? len p); [discriminate|]. injection EU as EU. unfold icmp6_spec in EU.
     set (th := THIcmp6 _) in *.
     destruct (wire_filled th (pseudo6 s d (8 + len p) 58) p ck) as (_ & V & WW & Z).
@@ -520,8 +574,7 @@ Proof.
     apply andb_true_iff in WN. destruct WN as [WH WX].
     destruct SH as (front & tb & EB & LF & LT & BND & ETR).
     assert (HL : tr_header_len (c_transport c) <= 60).
-    { clear - WT. destruct (c_transport c) as [n|sp dp|t|k|k]; cbn [tr_header_len]; try lia.
-      apply tcp_header_len_le. exact WT. }
+    { apply tr_header_len_le. exact WT. }
     assert (UL : 8 + len p < 65536) by lia. rewrite (as_u16_small _ UL) in ETR.
     destruct (Ipv4Proofs.wf_ip4_facts h WH) as (_ & _ & (LS & OS & LD & OD) & _).
     destruct (Ipv4Proofs.len4_explicit _ LS OS) as (s0 & s1 & s2 & s3 & ES & _).
@@ -536,7 +589,7 @@ Proof.
     rewrite <- W_drop, DR.
     assert (KK : ck_field_off (c_transport c) + 2 <= tr_header_len (c_transport c)).
     { clear - HC. destruct (c_transport c) as [n|sp dp|t|k|k]; cbn [tr_header_len ck_field_off has_ck4] in *;
-        try discriminate; try lia. unfold Tcp.header_len. lia. }
+        try discriminate; try lia; try (icmp_hl; lia). unfold Tcp.header_len. lia. }
     destruct (c_transport c) as [n|sp dp|t|k|k]; cbn [has_ck4] in HC; try discriminate;
       cbn [ps4] in V, WW; (split; [rewrite len_app, LT; reflexivity|]); (split; [clear - LB; lia|]);
       (split; [exact KK|]); (split; [exact V|exact WW]).
@@ -544,15 +597,15 @@ Proof.
     apply andb_true_iff in WN. destruct WN as [WH WX].
     destruct SH as (front & tb & EB & LF & LT & BND & ETR).
     assert (HL : tr_header_len (c_transport c) <= 60).
-    { clear - WT. destruct (c_transport c) as [n|sp dp|t|k|k]; cbn [tr_header_len]; try lia.
-      apply tcp_header_len_le. exact WT. }
+    { apply tr_header_len_le. exact WT. }
     assert (DR : drop (off_transport c) bs = tb ++ p).
     { rewrite EB. apply drop_front. symmetry. exact LF. }
     rewrite DR.
     assert (LB : len bs = off_transport c + len (tb ++ p)) by (rewrite EB, !len_app; lia).
     destruct (has_ck6 (c_transport c)) eqn:HC; [|destruct (c_transport c); try discriminate; exact I].
     assert (UL : 8 + len p < 65536).
-    { clear - HC BND. destruct (c_transport c) as [n|sp dp|t|k|k]; cbn [tr_header_len has_ck6] in *; try discriminate; try lia.
+    { clear - HC BND. destruct (c_transport c) as [n|sp dp|t|k|k]; cbn [tr_header_len has_ck6] in *; try discriminate; try lia;
+        try (icmp_hl; lia).
       unfold Tcp.header_len in BND. lia. }
     rewrite (as_u16_small _ UL) in ETR.
     unfold ip6_wf in WH. bsplit WH.
@@ -565,7 +618,7 @@ Proof.
     rewrite <- W_drop, DR.
     assert (KK : ck_field_off (c_transport c) + 2 <= tr_header_len (c_transport c)).
     { clear - HC. destruct (c_transport c) as [n|sp dp|t|k|k]; cbn [tr_header_len ck_field_off has_ck6] in *;
-        try discriminate; try lia. unfold Tcp.header_len. lia. }
+        try discriminate; try lia; try (icmp_hl; lia). unfold Tcp.header_len. lia. }
     destruct (c_transport c) as [n|sp dp|t|k|k]; cbn [has_ck6] in HC; try discriminate;
       cbn [ps6] in V, WW; (split; [rewrite len_app, LT; reflexivity|]); (split; [clear - LB; lia|]);
       (split; [exact KK|]); (split; [exact V|exact WW]).
@@ -589,7 +642,7 @@ Proof.
   - apply andb_true_iff in WN. destruct WN as [WH WX].
     destruct SH as (front & tb & EB & LF & LT & BND & ETR).
     assert (UL : 8 + len p < 65536).
-    { clear - BND. destruct (c_transport c) as [n|sp dp|t|k|k]; cbn [tr_header_len] in *; try lia;
+    { clear - BND. destruct (c_transport c) as [n|sp dp|t|k|k]; cbn [tr_header_len] in *; try lia; try (icmp_hl; lia);
       unfold Tcp.header_len in BND; lia. }
     rewrite (as_u16_small _ UL) in ETR.
     destruct (Ipv4Proofs.wf_ip4_facts h WH) as (_ & _ & (LS & OS & LD & OD) & _).
@@ -618,7 +671,7 @@ Proof.
       * destruct U as (-> & _). exact DR.
     + (* only a raw payload can be that long *)
       destruct (c_transport c) as [n|sp dp|t|k|k]; cbn [tr_header_len th_of] in *;
-        try (exfalso; clear - UL BND; lia).
+        try (exfalso; clear - UL BND; icmp_hl; lia).
       * cbn [tr_ipv6] in ETR. injection ETR as <-. exact DR.
       * exfalso. clear - UL BND. unfold Tcp.header_len in BND. lia.
 Qed.
